@@ -163,6 +163,38 @@ pub fn check_f(ty: &str, msgs: &[(usize, f64)]) -> String {
     }
 }
 
+/// a SEQUENCE of check-node calls on ONE arithmetic object (stale scratch buffers would show)
+pub fn check_f_seq(ty: &str, calls: &[Vec<(usize, f64)>]) -> String {
+    let ty2 = ty.to_string();
+    let calls = calls.to_vec();
+    match guarded(move || {
+        let mut outs: Vec<String> = Vec::new();
+        if ty2.ends_with("f64") {
+            with_f64!(ty2.as_str(), a => {
+                for msgs in &calls {
+                    let m: Vec<Message<f64>> = msgs.iter().map(|&(s, v)| Message { source: s, value: v }).collect();
+                    let mut out: Vec<(usize, f64)> = Vec::new();
+                    a.send_check_messages(&m, |s| out.push((s.dest, s.value)));
+                    outs.push(pairs_f(&out));
+                }
+            });
+        } else {
+            with_f32!(ty2.as_str(), a => {
+                for msgs in &calls {
+                    let m: Vec<Message<f32>> = msgs.iter().map(|&(s, v)| Message { source: s, value: v as f32 }).collect();
+                    let mut out: Vec<(usize, f64)> = Vec::new();
+                    a.send_check_messages(&m, |s| out.push((s.dest, s.value as f64)));
+                    outs.push(pairs_f(&out));
+                }
+            });
+        }
+        outs.join(" ")
+    }) {
+        Ok(o) => o,
+        Err(_) => "panic".to_string(),
+    }
+}
+
 pub fn var_f(ty: &str, input: f64, msgs: &[(usize, f64)]) -> String {
     let ty2 = ty.to_string();
     let msgs = msgs.to_vec();
@@ -312,6 +344,18 @@ pub fn run_c04(ctx: &mut Ctx, replay: Option<&[String]>) {
         let m: Vec<(usize, f64)> = srcs.into_iter().map(|s| (s, rand_f(&mut rng, ty, style))).collect();
         let tag = if deg < 2 { "float-degree-1" } else if deg <= 8 { "float-degree-2..8" } else { "float-degree-9..30" };
         ctx.emit(&format!("c04 f {} {}", ty, pairs_f(&m)), &check_f(ty, &m), deg >= 2, &[tag, ty]);
+    }
+    // sequences of 2-5 check-node calls on ONE arithmetic object, high degree then low degree
+    for k in 0..ctx.scale(6000, 100_000) {
+        let ty = F_TYPES[k % 8];
+        let ncalls = rng.range(2, 5);
+        let calls: Vec<Vec<(usize, f64)>> = (0..ncalls).map(|c| {
+            let deg = if c % 2 == 0 { rng.range(4, 10) } else { rng.range(2, 3) };
+            let style = rng.below(4);
+            (0..deg).map(|i| (i * 2 + 1, rand_f(&mut rng, ty, style))).collect()
+        }).collect();
+        let input: Vec<String> = calls.iter().map(|m| pairs_f(m)).collect();
+        ctx.emit(&format!("c04 fs {} {}", ty, input.join(" ")), &check_f_seq(ty, &calls), true, &["float-check-rule-sequence-on-one-object", ty]);
     }
 }
 
